@@ -484,7 +484,7 @@ func init() {
 							}
 							key := fnName(fn) + "/" + f.Name() + "." + cc.StaticCallee().Name()
 							// some load of the same field (same base access path) must be nil-tested and dominate
-							if fieldNilTested(fn, fa, ref.Block()) {
+							if fieldNilTested(fn, fa, ref.Block()) || fieldNilTestedByCallers(c, fn, fa, 0) {
 								r.ok(key, fnName(fn), c.pos(ref.Pos()), "dominated by a nil test of ."+f.Name())
 							} else {
 								r.bad(key, fnName(fn), c.pos(ref.Pos()), "method call on Dictionary."+f.Name()+" which may be nil, without a dominating nil test")
@@ -517,6 +517,60 @@ func fieldNilTested(fn *ssa.Function, fa *ssa.FieldAddr, b *ssa.BasicBlock) bool
 		}
 	}
 	return false
+}
+
+// fieldNilTestedByCallers: fa is a field of a parameter of an unexported helper,
+// and every call of the helper is dominated by a non-nil test of that field of
+// the argument (the caller decides, the helper uses).
+func fieldNilTestedByCallers(c *Ctx, fn *ssa.Function, fa *ssa.FieldAddr, depth int) bool {
+	if depth > 2 || token.IsExported(fn.Name()) || fn.Parent() != nil {
+		return false
+	}
+	pi := -1
+	for i, p := range fn.Params {
+		if fa.X == ssa.Value(p) {
+			pi = i
+		}
+	}
+	if pi < 0 {
+		return false
+	}
+	_, fv := fieldAddrInfo(fa)
+	if fv == nil {
+		return false
+	}
+	sites := 0
+	for _, caller := range c.srcFns {
+		for _, b := range caller.Blocks {
+			for _, ins := range b.Instrs {
+				call, ok := ins.(*ssa.Call)
+				if !ok || call.Call.StaticCallee() != fn || pi >= len(call.Call.Args) {
+					continue
+				}
+				sites++
+				arg := stripConv(call.Call.Args[pi])
+				path := "*" + accessPath(arg) + "." + fv.Name()
+				if pathKnown(caller, path, true, b) {
+					continue
+				}
+				// the caller is itself such a helper
+				okUp := false
+				for _, cb := range caller.Blocks {
+					for _, ci := range cb.Instrs {
+						if cfa, ok := ci.(*ssa.FieldAddr); ok && cfa.X == arg && cfa.Field == fa.Field {
+							if fieldNilTestedByCallers(c, caller, cfa, depth+1) {
+								okUp = true
+							}
+						}
+					}
+				}
+				if !okUp {
+					return false
+				}
+			}
+		}
+	}
+	return sites > 0
 }
 
 // checkMaybeNilUses walks the uses of a possibly-nil pointer value (and of phis
